@@ -287,7 +287,7 @@ def guard (b : Bool) (f : Fail) : Except Fail Unit := if b then .ok () else .err
 def prep (r0 : Cells) : Cells × Option Str :=
   let r := r0.filter fun kv => kv.1 ≠ (k!"parameters")
   let r := r.map fun kv => if kv.1 = (k!"type") then (kv.1, dealias kv.2) else kv
-  (r, get r0 "parameters")
+  (plainSaveto r, get r0 "parameters")
 
 /-- guards on the raw row (outside the fragment) -/
 def rowGuards (r0 r : Cells) : Except Fail Unit := do
